@@ -246,6 +246,39 @@ func c16Eval(c c16Case) (ok bool, sig, detail string) {
 			}
 		}
 		return true, "", ""
+	case "insdel":
+		// one byte inserted before offset Off (Byte >= 0) or the byte at Off deleted (Byte < 0): the lines no longer have the
+		// canonical width; whatever the reader makes of it, it does not panic, both line-end variants agree and Len() counts
+		// the residues delivered
+		src := []byte(ref)
+		if c.Off >= len(src) {
+			return true, "", ""
+		}
+		var mut []byte
+		if c.Byte >= 0 {
+			mut = append(append(append(mut, src[:c.Off]...), byte(c.Byte)), src[c.Off:]...)
+		} else {
+			mut = append(append(mut, src[:c.Off]...), src[c.Off+1:]...)
+		}
+		lf := scanAll(c16Record(c.N, string(mut), false))
+		cr := scanAll(c16Record(c.N, string(mut), true))
+		engine.Outcome(fmt.Sprintf("%v|%d", lf.err, lf.records))
+		what := fmt.Sprintf("n=%d, byte %q inserted before block[%d]", c.N, byte(c.Byte), c.Off)
+		if c.Byte < 0 {
+			what = fmt.Sprintf("n=%d, block[%d] deleted", c.N, c.Off)
+		}
+		if lf.panicked != "" || cr.panicked != "" {
+			return false, "scan-panic", what + ": scanner panics: " + lf.panicked + cr.panicked
+		}
+		if lf.err != cr.err || lf.records != cr.records || strings.Join(lf.residues, "|") != strings.Join(cr.residues, "|") {
+			return false, "paths-disagree", what + fmt.Sprintf(": LF gives records=%d err=%q, CRLF records=%d err=%q", lf.records, lf.errText, cr.records, cr.errText)
+		}
+		for i, l := range lf.lens {
+			if l != len(lf.residues[i]) {
+				return false, "len-vs-bytes", what + fmt.Sprintf(": Len()=%d but %d residues", l, len(lf.residues[i]))
+			}
+		}
+		return true, "", ""
 	case "mutate":
 		mut := []byte(ref)
 		if c.Off >= len(mut) {
@@ -388,6 +421,21 @@ func init() {
 					for off := 0; off < blockLen; off++ {
 						for _, b := range repl {
 							eval(c16Case{Kind: "mutate", N: n, Off: off, Byte: int(b)}, 100000+n)
+						}
+					}
+				})
+				complete = complete && done
+			}
+			if complete {
+				maxID := 40
+				if r.Tier == "thorough" {
+					maxID = 130
+				}
+				done := r.ParallelFor(maxID+1, func(n int) {
+					blockLen := len(refOrigin(c16Residues(n, 0)))
+					for off := 0; off < blockLen; off++ {
+						for _, b := range []int{' ', '0', 'a', '\n', -1} {
+							eval(c16Case{Kind: "insdel", N: n, Off: off, Byte: b}, 150000+n)
 						}
 					}
 				})
